@@ -419,7 +419,10 @@ pub fn needed_digits(t: i128, r: &mut Rng) -> u8 {
             break;
         }
     }
-    if need < 9 && r.chance(1, 3) {
+    if r.chance(1, 12) {
+        // more digits than nanoseconds (trailing zeros): 10..=20
+        10 + r.below(11) as u8
+    } else if need < 9 && r.chance(1, 3) {
         need + r.below((9 - need) as u64 + 1) as u8
     } else {
         need
